@@ -305,6 +305,10 @@ def build_cases(tier="quick"):
     from contracts.common import rewrap
 
     ref += rewrap(PROP, c16.parse_core_cases() + c16.check_unsat_cores_cases() + c16.from_result_cases(), "cached-unsat")
+    # `PASS without a bound or incompleteness warning`: the warning of a cut loop is not filtered away as a duplicate (C10's unit)
+    from contracts import c10
+
+    ref += rewrap(PROP, c10.logs_cases(), "bound-warning-is-emitted")
     return panic_cases() + fail_flag_cases() + handler_cases() + setup_cases() + ref
 
 
